@@ -135,7 +135,8 @@ def gen_component(rnd, depth=0):
             text = str(v)
         elif kind == "dt":
             pname, v = rnd.choice(["DTSTART", "DTEND", "DTSTAMP"]), None
-            text = f"20{rnd.randint(10, 37)}{rnd.randint(1, 12):02}{rnd.randint(1, 28):02}T{rnd.randint(0, 23):02}{rnd.randint(0, 59):02}00" + rnd.choice(["", "Z"])
+            year = rnd.choice([f"20{rnd.randint(10, 37)}", f"20{rnd.randint(10, 37)}", "0001", "0999", "1000", "9999"])      # (boundary years too)
+            text = f"{year}{rnd.randint(1, 12):02}{rnd.randint(1, 28):02}T{rnd.randint(0, 23):02}{rnd.randint(0, 59):02}00" + rnd.choice(["", "Z"])
         elif kind == "dtz":
             pname, v = rnd.choice(["DTSTART", "DUE", "RECURRENCE-ID"]), None
             params.append(("TZID", rnd.choice(["Europe/Berlin", "America/New_York"])))
@@ -143,7 +144,7 @@ def gen_component(rnd, depth=0):
         elif kind == "date":
             pname, v = "DTSTART", None
             params.append(("VALUE", "DATE"))
-            text = f"20{rnd.randint(10, 37)}{rnd.randint(1, 12):02}{rnd.randint(1, 28):02}"
+            text = rnd.choice([f"20{rnd.randint(10, 37)}", "0001", "0050", "0999"]) + f"{rnd.randint(1, 12):02}{rnd.randint(1, 28):02}"
         elif kind == "dur":
             pname, v = "DURATION", None
             text = rnd.choice(["PT1H", "P1D", "-PT15M", "P1W", "P1DT2H3M4S"])
